@@ -142,3 +142,28 @@ Theorem git_series_backup : forall o p1 p2 f A0 A1 A2 st s1 s2 w data m0,
 Proof. exact Proofs_DriverMore.git_series_backup. Qed.
 Print Assumptions git_series_backup.
 
+
+(* ===== the known finding K-C18-late-backup-plain-series, as a statement about the model ===== *)
+From PatchV Require Import Base Lines Hunk Options Parser World Driver.
+Local Open Scope string_scope.
+Definition nl1 : list N := [10%N].
+Definition rf_opts :=
+  mkOptions false false [] [] false (bs "p.diff") false false false [] (-1) 2 false [] [] false false false false false false false false OBYes OBYes MNative RFDefault ROWarn QSUnset [] [].
+Fixpoint seqlines (k n : nat) : list N :=
+  match n with O => [] | S m => bs (String.string_of_list_ascii (List.map Ascii.ascii_of_nat (if Nat.ltb k 10 then [48 + k] else [48 + k / 10; 48 + Nat.modulo k 10])%nat)) ++ nl1 ++ seqlines (S k) m end.
+Definition rf_a : list N := seqlines 1 20.
+Definition rf_patch : list N :=
+  bs "--- a" ++ nl1 ++ bs "+++ a" ++ nl1 ++ bs "@@ -1,3 +1,3 @@" ++ nl1 ++ bs " 1" ++ nl1 ++ bs "-2" ++ nl1 ++ bs "+two" ++ nl1 ++ bs " 3" ++ nl1 ++
+  bs "--- a" ++ nl1 ++ bs "+++ a" ++ nl1 ++ bs "@@ -12,3 +12,3 @@" ++ nl1 ++ bs " 14" ++ nl1 ++ bs "-15" ++ nl1 ++ bs "+fifteen" ++ nl1 ++ bs " 16" ++ nl1.
+Definition rf_world := mkWorld [(bs "a", Reg rf_a 420); (bs "p.diff", Reg rf_patch 420)] 18 [] None [].
+(* K-C18-late-backup-plain-series as a theorem about the model: the statement "the backup holds what the target held before the
+   run" is refuted by this run - two plain sections for one file, the first exact, the second two lines off *)
+Theorem late_backup_plain_series_refuted :
+  let r := run_patch rf_opts [] rf_world in
+  rr_exit r = 0 /\
+  exists d m, lookup (fs (rr_world r)) (bs "a.orig") = Some (Reg d m) /\ d <> rf_a /\
+              firstn 6 d = bs "1" ++ nl1 ++ bs "two" ++ nl1.
+Proof.
+  vm_compute. split; [reflexivity|]. eexists. eexists. split; [reflexivity|]. split; [discriminate|reflexivity].
+Qed.
+Print Assumptions late_backup_plain_series_refuted.
